@@ -14,6 +14,8 @@ not change the output):
 * `BaseNeuron.convert_units`: the factor expression, the in-place operator, the `exclude` of its own clear;
 * `to_neuron_space`: what the length is converted to (`.to(<target>)`), what the magnitude is divided by, the rounding call;
   `round_smart`'s default precision; the `on_error` policy literals;
+* the `add_units` decorator: the factor expression (`np.power(self.units, power)`: the Quantity, not the bare Unit), its guard,
+  and every `@add_units(compact=…, power=…)` site with its literals;
 * the `units` setter: accepted lengths, spelling substitutions, the template for plain numbers;
 * the guard of the final `self.units = units` of `TreeNeuron.__init__` / `MeshNeuron.__init__`;
 * every `map_units(...)` call site (enclosing function, argument, `on_error`, whether the result is bound back to the name);
@@ -317,6 +319,52 @@ def extract_to_neuron_space(cu_tree, misc_tree):
                 isoGuard=iso_guard, prec=prec)
 
 
+def extract_add_units(cu_tree, class_trees):
+    """the `add_units(compact, power)` decorator: its defaults, the factor the wrapped value is multiplied with, the guard,
+    whether compaction happens under `if compact:`; and every `@add_units(...)` site with its literal arguments"""
+    fn = next((n for n in cu_tree.body if isinstance(n, ast.FunctionDef) and n.name == 'add_units'), None)
+    if fn is None:
+        raise Untranslatable('add_units not found')
+    names = [a.arg for a in fn.args.args]
+    defaults = dict(zip(names[len(names) - len(fn.args.defaults):], [_lit(d) for d in fn.args.defaults]))
+    factor = guard = None
+    compact_guarded = False
+    for n in ast.walk(fn):
+        if isinstance(n, ast.If) and 'config.add_units' in _src(n.test):
+            guard = _src(n.test)
+            for m in ast.walk(n):
+                if isinstance(m, ast.Assign) and len(m.targets) == 1 and _src(m.targets[0]) == 'res' \
+                        and isinstance(m.value, ast.BinOp) and isinstance(m.value.op, ast.Mult):
+                    l, r_ = _src(m.value.left), _src(m.value.right)
+                    if l == 'res':
+                        factor = r_
+                    elif r_ == 'res':
+                        factor = l
+                if isinstance(m, ast.If) and _src(m.test) == 'compact':
+                    compact_guarded = any(isinstance(b, ast.Assign) and _src(b.value) == 'res.to_compact()' for b in m.body)
+    if factor is None or guard is None:
+        raise Untranslatable('add_units: `res = res * <factor>` under `if config.add_units …` not found')
+    sites = []
+    for cname, tree in class_trees:
+        cls = _class(tree, cname)
+        for n in cls.body:
+            if not isinstance(n, ast.FunctionDef):
+                continue
+            for d in n.decorator_list:
+                if isinstance(d, ast.Call) and _src(d.func).split('.')[-1] == 'add_units':
+                    kw = dict(defaults)
+                    for i, a in enumerate(d.args):
+                        kw[names[i]] = _lit(a)
+                    for k in d.keywords:
+                        kw[k.arg] = _lit(k.value)
+                    if not isinstance(kw.get('power'), int) or not isinstance(kw.get('compact'), bool):
+                        raise Untranslatable(f'{cname}.{n.name}: non-literal add_units arguments')
+                    sites.append((cname, n.name, kw['compact'], kw['power']))
+                elif _src(d).split('.')[-1] == 'add_units':
+                    sites.append((cname, n.name, defaults.get('compact'), defaults.get('power')))
+    return dict(factor=factor, guard=guard, compactGuarded=compact_guarded, sites=sites)
+
+
 def extract_units_setter(base_tree):
     cls = _class(base_tree, 'UnitObject')
     fn = None
@@ -433,6 +481,7 @@ def generate(repo: Path):
     conv = extract_convert_units(base_cls)
     tns = extract_to_neuron_space(cu, misc)
     setter = extract_units_setter(base)
+    addu = extract_add_units(cu, [(c, trees[c]) for c, _ in CLASSES])
     guards = [extract_init_guard(_class(trees[c], c), c) for c, _ in CLASSES]
     sites = extract_map_sites(repo)
     methods = {c: extract_inplace_methods(_class(trees[c], c), c) for c, _ in CLASSES}
@@ -508,6 +557,15 @@ def generate(repo: Path):
     A('def unitsSpellingFix : List (String × String) := [' + ', '.join(f'({_s(a)}, {_s(b)})' for a, b in setter['repl']) + ']')
     A(f'def unitsNumberTemplate : String := {_s(setter["numtpl"])}')
     A('')
+    A('/-! the `add_units(compact, power)` decorator (`config.add_units = True`) -/')
+    A('/-- what the wrapped value is multiplied with -/')
+    A(f'def addUnitsFactor : String := {_s(addu["factor"])}')
+    A(f'def addUnitsGuard : String := {_s(addu["guard"])}')
+    A(f'def addUnitsCompactsWhenAsked : Bool := {_b(addu["compactGuarded"])}')
+    A('/-- every decorated property: (class, property, compact, power) -/')
+    A('def addUnitsSites : List (String × String × Bool × Nat) := [' +
+      ', '.join(f'({_s(c)}, {_s(m)}, {_b(cp)}, {int(pw)})' for c, m, cp, pw in addu['sites']) + ']')
+    A('')
     A('/-- last `self.units = units` of `__init__`: (class, present, guarded, guard expression) -/')
     A('def initUnits : List (String × Bool × Bool × String) := [' +
       ', '.join(f'({_s(g["cls"])}, {_b(g["assigns"])}, {_b(g["guarded"])}, {_s(g["guard"])})' for g in guards) + ']')
@@ -526,5 +584,6 @@ def generate(repo: Path):
     meta = dict(source=[rel for _, rel in CLASSES] + ['navis/core/base.py', 'navis/core/core_utils.py', 'navis/utils/misc.py'],
                 operators=len(facts), temp_attr=temp_attr, map_sites=[s['fn'] + ':' + s['arg'] for s in sites],
                 inplace_methods={c: [m for m, _ in methods[c]] for c in methods},
+                add_units_sites=[list(t) for t in addu['sites']],
                 tree_excludes={f['op']: f['clearExclude'] for f in facts if f['cls'] == 'TreeNeuron'})
     return 'Units.lean', '\n'.join(L) + '\n', meta
